@@ -727,6 +727,44 @@ def fn_exp(u):
 
 
 # --------------------------------------------------------------------------
+# sign on a domain
+# --------------------------------------------------------------------------
+def poly_sign(p):
+    """+1 / -1 if every coefficient has that sign and every atom is a positive quantity, 0 for the zero polynomial, else None."""
+    if p.is_zero():
+        return 0
+    signs = set()
+    for m, (c, _g) in p.t.items():
+        if not all(_atom_positive(a) for a, _ in m):
+            return None
+        signs.add(1 if c > 0 else -1)
+    return signs.pop() if len(signs) == 1 else None
+
+
+def definite_sign(r, unit=()):
+    """Sign (+1, -1, 0) of a normal form for all positive values of its positive atoms and all values in (0, 1) of the atoms named
+    in `unit`, or None if that is not evident.  Unit-interval atoms are mapped by u = t/(1+t), t > 0, after which a polynomial whose
+    coefficients share one sign is sign-definite (sufficient, not necessary)."""
+    r = to_rat(r)
+    present = [u for u in unit if u in r.all_atoms()]
+    if any(u not in r.atoms() for u in present):
+        return None  # inside a log/sqrt argument: not handled
+    for u in present:
+        t = sym(f"_t_{u}", True)
+        r = subs(r, {u: t / (t + 1)})
+    sg = poly_sign(r.n)
+    if sg is None or sg == 0:
+        return sg
+    for f, pw in r.d.values():
+        fs = poly_sign(f)
+        if fs is None or fs == 0:
+            return None
+        if pw % 2:
+            sg *= fs
+    return sg
+
+
+# --------------------------------------------------------------------------
 # comparison, differentiation, substitution, numeric guard
 # --------------------------------------------------------------------------
 def difference(a, b, tol=TOL):
